@@ -130,6 +130,19 @@ class Ctx:
         self._harness_bin = {}
         self._kf = None
         self.quick = tier == "quick"
+        self.replay_key = None
+        self.replay_handled = False      # set by checks that re-execute the recorded case themselves
+        if replay:
+            # default replay: re-run the (deterministic, seeded) check with the recorded seed and tier and keep only
+            # the recorded violation
+            try:
+                d = json.load(open(replay))
+                self.seed = int(d.get("seed", seed))
+                self.tier = d.get("tier", tier)
+                self.quick = self.tier == "quick"
+                self.replay_key = d.get("key")
+            except Exception:
+                pass
 
     # ------------------------------------------------------------ utilities
     def log(self, *a):
@@ -437,6 +450,8 @@ class Ctx:
 
     def finish(self, level, coverage, assumptions=None, extra=None):
         """Classify, write evidence, print verdict lines, return exit code."""
+        if self.replay and self.replay_key and not self.replay_handled and self.prop in ("C04", "C05", "C06", "C12", "C19"):
+            self.violations = [v for v in self.violations if v["key"] == self.replay_key]
         kf_open = [k for k in self.known_findings() if k["property"] == self.prop and k.get("status") == "open"]
         known_hits = {}
         unlisted = []
@@ -485,8 +500,9 @@ class Ctx:
               "coverage": cov, "assumptions": assumptions or [], "wall_s": round(time.time() - self.t0, 2),
               "violations": len(seen)}
         os.makedirs(os.path.join(VERIF, "evidence"), exist_ok=True)
-        with open(os.path.join(VERIF, "evidence", "%s.json" % self.prop), "w") as f:
-            json.dump(ev, f, indent=1, default=str)
+        if not self.replay:      # a replay does not overwrite the evidence of the last real run
+            with open(os.path.join(VERIF, "evidence", "%s.json" % self.prop), "w") as f:
+                json.dump(ev, f, indent=1, default=str)
         for l in lines:
             print(l, flush=True)
         if seen:
